@@ -219,6 +219,7 @@ func main() {
 	if prop == "C16" {
 		files = append(files, corpus.Extra()...)
 	}
+	wantRaceDriver = prop == "C09"
 	bs, err := buildAll(vs, files, *genRoot, *bindir, *repo, *harnessDir)
 	hx.Must(err)
 	hx.Must(os.MkdirAll(*out, 0o755))
@@ -241,6 +242,8 @@ func main() {
 		streamUnmarshal(r.Fork("unmarshal"), cfs, bs)
 	case "C06", "C07", "C08", "C10":
 		streamUnmarshal(r, cfs, bs)
+	case "C09":
+		streamHistory(r, cfs, bs)
 	case "C16":
 		streamGenerator(r, cfs, bs, *bindir, *genRoot)
 	default:
